@@ -20,11 +20,71 @@ type inst struct {
 	kind  string
 }
 
+// Elements of unusual but legal kinds: a queue element is any non-nil interface value, also one whose data word is
+// nil or zero (typed nil pointer / map / chan / func, empty struct, zero int, empty string, nil slice).
+type marker struct{ _ int }
+
+func elem(v int64) interface{} {
+	switch v {
+	case 901:
+		return (*marker)(nil)
+	case 902:
+		return map[int]int(nil)
+	case 903:
+		return (chan int)(nil)
+	case 904:
+		return (func())(nil)
+	case 905:
+		return struct{}{}
+	case 906:
+		return ""
+	case 907:
+		return int(0)
+	case 908:
+		return []int(nil)
+	}
+	return v
+}
+
 func val(x interface{}) string {
 	if x == nil {
 		return "v0"
 	}
-	return "v" + strconv.FormatInt(x.(int64), 10)
+	switch y := x.(type) {
+	case int64:
+		return "v" + strconv.FormatInt(y, 10)
+	case *marker:
+		if y == nil {
+			return "v901"
+		}
+	case map[int]int:
+		if y == nil {
+			return "v902"
+		}
+	case chan int:
+		if y == nil {
+			return "v903"
+		}
+	case func():
+		if y == nil {
+			return "v904"
+		}
+	case struct{}:
+		return "v905"
+	case string:
+		if y == "" {
+			return "v906"
+		}
+	case int:
+		if y == 0 {
+			return "v907"
+		}
+	case []int:
+		if y == nil {
+			return "v908"
+		}
+	}
+	return fmt.Sprintf("v-unexpected(%T)", x)
 }
 
 func (in *inst) Exec(t int, op vdrv.Op) string {
@@ -33,7 +93,7 @@ func (in *inst) Exec(t int, op vdrv.Op) string {
 		if op.Arg(0) == 0 {
 			in.q.Offer(nil)
 		} else {
-			in.q.Offer(op.Arg(0))
+			in.q.Offer(elem(op.Arg(0)))
 		}
 		return "u"
 	case "p":
@@ -77,7 +137,7 @@ func (in *inst) Final() string {
 	var d, tr []string
 	if it := in.q.Iterator(); it != nil {
 		for it.HasNext() {
-			tr = append(tr, strconv.FormatInt(it.Next().(int64), 10))
+			tr = append(tr, val(it.Next())[1:])
 		}
 	}
 	for {
@@ -85,7 +145,7 @@ func (in *inst) Final() string {
 		if x == nil {
 			break
 		}
-		d = append(d, strconv.FormatInt(x.(int64), 10))
+		d = append(d, val(x)[1:])
 	}
 	return fmt.Sprintf("s%d t%s d%s", sz, strings.Join(tr, ","), strings.Join(d, ","))
 }
@@ -101,7 +161,7 @@ func newInst(s *vdrv.Scenario) vdrv.Instance {
 		if v < 0 {
 			in.q.Poll() // set-up scripts: a negative entry is a Poll (lagging head / tail shapes)
 		} else {
-			in.q.Offer(v)
+			in.q.Offer(elem(v))
 		}
 	}
 	return in
